@@ -4,6 +4,7 @@ import (
 	"bytes"
 	stdbzip2 "compress/bzip2"
 	"fmt"
+	"io"
 	"io/ioutil"
 	"math/rand"
 
@@ -32,7 +33,15 @@ func bzWrite(data []byte, level int, parts [][]byte) (sink []byte, err error, in
 	if parts == nil {
 		parts = [][]byte{data}
 	}
-	for _, p := range parts {
+	for i, p := range parts {
+		if i%3 == 2 && len(p) > 0 && len(p) < 30000 {
+			// through io.Copy from a source that returns its last bytes together with io.EOF
+			// (io.Copy picks up an io.ReaderFrom on the Writer if it has one)
+			if n, err := io.Copy(zw, &vhlib.ReadOnly{B: p, WithEOF: true}); err != nil || n != int64(len(p)) {
+				return bb.Bytes(), fmt.Errorf("io.Copy: %d %v", n, err), zw.InputOffset, zw.OutputOffset
+			}
+			continue
+		}
 		if n, err := zw.Write(p); err != nil || n != len(p) {
 			return bb.Bytes(), fmt.Errorf("write: %d %v", n, err), zw.InputOffset, zw.OutputOffset
 		}
